@@ -1,10 +1,14 @@
 #!/bin/sh
-# tools/try_mutant.sh <seeded name> <check id> [tier] : apply a seeded change to /repo, run a check, undo.
+# tools/try_mutant.sh <seeded name> <check id> [tier] : run a check against a seeded change.
+# The change is applied to a scratch copy of /repo's working tree (PYTRS_REPO points the check at it), so /repo
+# itself is never touched and several of these can run side by side.  (Equivalent to: git -C /repo apply <patch>;
+# ./check ...; git -C /repo checkout -- .)
 name="$1"; chk="$2"; tier="${3:-quick}"
-git -C /repo diff --quiet || { echo "/repo not clean"; exit 2; }
-git -C /repo apply /verif/seeded/$name/patch.diff || exit 2
-mkdir -p /tmp/ev_backup; cp /verif/evidence/$chk.json /tmp/ev_backup/ 2>/dev/null
-cd /verif && ./check $chk --tier $tier > /tmp/try_$name.$chk.log 2>&1; rc=$?
-git -C /repo checkout -- .
-cp /tmp/ev_backup/$chk.json /verif/evidence/ 2>/dev/null
+w=$(mktemp -d /tmp/mut_XXXXXX)
+cp -r /repo/pytrs "$w/" && git -C "$w" init -q 2>/dev/null
+(cd "$w" && git apply /verif/seeded/$name/patch.diff) || { echo "$name: patch does not apply"; rm -rf "$w"; exit 2; }
+mkdir -p /tmp/ev_backup; cp /verif/evidence/$chk.json /tmp/ev_backup/$chk.$$.json 2>/dev/null
+cd /verif && PYTRS_REPO="$w" ./check $chk --tier $tier > /tmp/try_$name.$chk.log 2>&1; rc=$?
+cp /tmp/ev_backup/$chk.$$.json /verif/evidence/$chk.json 2>/dev/null; rm -f /tmp/ev_backup/$chk.$$.json
+rm -rf "$w"
 echo "$name vs $chk ($tier): exit=$rc  $(grep -c '^VIOLATION' /tmp/try_$name.$chk.log) VIOLATION lines; $(tail -1 /tmp/try_$name.$chk.log)"
